@@ -28,7 +28,7 @@ LEVEL = "exploration"
 SHARDS = 4
 RULE = (
     "values = 45 atoms (strings: empty, ascii, quote, backslash, newline, NUL, 0x1f, 0x7f, U+2028, "
-    "accented, U+FFFD, astral, 10 kB; ints: 0, +-1, +-2^31, 2^53+-1, 2^63-1, -2^63; floats: 0.0, -0.0, "
+    "accented, U+FFFD, astral, 10 kB, 120 kB; ints: 0, +-1, +-2^31, 2^53+-1, 2^63-1, -2^63; floats: 0.0, -0.0, "
     "0.1, 1.5, 1e-7, 5e-324, max double, NaN, +-inf; true, false, null) + lists/dicts of <= 2 elements "
     "(second element over 12 representative atoms) + one more nesting level around every such container + rich types (Path, date, time, datetime, "
     "set, complex, dataclass, custom class via caller json_default) nested in containers; x {binary, "
@@ -41,7 +41,8 @@ ASSUMPTIONS = [
 ]
 
 BIG = "x" * 10240
-STR_ATOMS = ["", "ascii", "\"", "\\", "\n", "\x00", "\x1f", "\x7f", " ", "café", "�", "\U0001f600", "a\"b\\c\nd\te", BIG]
+HUGE = "h\u00e9" * 40000  # > 64 KiB once encoded
+STR_ATOMS = [HUGE, "", "ascii", "\"", "\\", "\n", "\x00", "\x1f", "\x7f", " ", "café", "�", "\U0001f600", "a\"b\\c\nd\te", BIG]
 INT_ATOMS = [0, 1, -1, 2 ** 31, -(2 ** 31), 2 ** 53 - 1, 2 ** 53 + 1, 2 ** 63 - 1, -(2 ** 63)]
 FLOAT_ATOMS = [0.0, -0.0, 0.1, 1.5, 1e-07, 5e-324, 1.7976931348623157e308, float("nan"), float("inf"), float("-inf")]
 OTHER = [True, False, None]
@@ -57,6 +58,18 @@ class Custom(object):
 def caller_default(o):
     if isinstance(o, Custom):
         return {"custom": o.v}
+    return eliot_json_default(o)
+
+
+def overriding_default(o):
+    """A caller's json_default that also covers types eliot's own default knows: the caller's
+    function is what is handed to the encoder, so its encoding must win."""
+    if isinstance(o, set):
+        return {"set": sorted(o)}
+    if isinstance(o, Path):
+        return {"path": str(o)}
+    if isinstance(o, complex):
+        return [o.real, o.imag]
     return eliot_json_default(o)
 
 
@@ -107,6 +120,7 @@ def cases(unit, tier):
     elif unit[0] == "custom":
         yield ["custom", 0]
         yield ["custom", 1]
+        yield ["custom", 2]
     else:
         yield ["real", 0]
 
@@ -251,6 +265,12 @@ def run_case(case):
         viol += [("caller-default:" + s, d) for s, d in v2]
         return Result(outcome=text, violations=[(s, dict(d, value=repr(v)[:120])) for s, d in viol[:3]])
     if case[0] == "custom":
+        if case[1] == 2:
+            msg = dict(BASE, s={3, 1}, p=Path("/x"), c=complex(1, 2), d=datetime.date(2020, 1, 2))
+            exp = dict(BASE, s={"set": [1, 3]}, p={"path": "/x"}, c=[1.0, 2.0], d="2020-01-02")
+            viol, text = check_one(msg, exp, overriding_default)
+            viol = [("caller-default-precedence:" + s_, d_) for s_, d_ in viol]
+            return Result(outcome=text, violations=viol[:3])
         if case[1] == 0:
             msg = dict(BASE, v=Custom([1, Custom("in")]), p=Path("/x"))
             viol, text = check_one(msg, dict(BASE, v={"custom": [1, {"custom": "in"}]}, p="/x"), caller_default)
